@@ -46,6 +46,10 @@ type stopCause struct {
 type minState struct {
 	funcCalls, gradCalls, statusCalls, records int
 	evals                                      map[string]float64
+	// badAt > 0 makes the badAt-th call of Func (in call order) return badVal (NaN or +Inf): the paths on
+	// which a method gives up by itself (MethodDone / ErrFunc) instead of being stopped by Minimize.
+	badAt  int
+	badVal float64
 }
 
 type errRecorder struct {
@@ -100,7 +104,22 @@ func genMinimize(g *vlib.G) {
 			s.MajorIterations = 6
 			s.Recorder = &errRecorder{st: st, failAt: 2}
 		}},
-		{"converge", func(s *optimize.Settings, p *optimize.Problem, st *minState) { s.MajorIterations = 5; s.FuncEvaluations = 12 }},
+		{"converge", func(s *optimize.Settings, p *optimize.Problem, st *minState) {
+			s.MajorIterations = 5
+			s.FuncEvaluations = 12
+		}},
+		{"NaN@1", func(s *optimize.Settings, p *optimize.Problem, st *minState) {
+			s.MajorIterations = 4
+			st.badAt, st.badVal = 1, math.NaN()
+		}},
+		{"+Inf@1", func(s *optimize.Settings, p *optimize.Problem, st *minState) {
+			s.MajorIterations = 4
+			st.badAt, st.badVal = 1, math.Inf(1)
+		}},
+		{"NaN@2", func(s *optimize.Settings, p *optimize.Problem, st *minState) {
+			s.MajorIterations = 4
+			st.badAt, st.badVal = 2, math.NaN()
+		}},
 	}
 	for _, ms := range methods {
 		for conc := 1; conc <= ms.maxC; conc++ {
@@ -119,7 +138,13 @@ func genMinimize(g *vlib.G) {
 							point("Func")
 							f := quad2(x)
 							k := fmt.Sprint(x)
-							vlib.Atomically(func() { st.funcCalls++; st.evals[k] = f })
+							vlib.Atomically(func() {
+								st.funcCalls++
+								if st.funcCalls == st.badAt {
+									f = st.badVal
+								}
+								st.evals[k] = f
+							})
 							return f
 						}}
 						if ms.grad {
